@@ -250,6 +250,29 @@ def downgrade(data, to_version):
                p['genus'] != p['species']:
                 return None
             x[i] = p['species']
+    if to_version < 13:
+        # v13 added initial_variables (= variables) and the toolchain
+        if x['toolchain'] != {'path': None} or \
+           x['initial_variables'] != x['variables']:
+            return None
+        del x['toolchain']
+        del x['initial_variables']
+    if to_version < 12:
+        # v12 split platform into host_platform and target_platform
+        if x['host_platform'] != x['target_platform']:
+            return None
+        x['platform'] = x.pop('host_platform')
+        del x['target_platform']
+    if to_version < 11:
+        # v11 added the DESTDIR flag to every stored path
+        for i in ('bfgdir', 'srcdir', 'builddir'):
+            if x[i][-1] is not False:
+                return None
+            x[i] = x[i][:-1]
+        for k, v in x['install_dirs'].items():
+            if v is None or v[-1] is not False:
+                return None
+            x['install_dirs'][k] = v[:-1]
     d['version'] = to_version
     return d
 
@@ -388,7 +411,7 @@ def gen_scenario(seed, root, params):
                       'cwd': cwd, 'prog': prog,
                       'lazy': rng.random() < 0.3,
                       'relbuild': rng.random() < 0.5,
-                      'version': rng.choice([13, 14, 15, 16])})
+                      'version': rng.choice([10, 11, 12, 13, 14, 15, 16])})
     return {'seed': seed, 'backend': backend, 'project': proj.to_json(),
             'env': env, 'model': model, 'tc_lines': tc_lines,
             'used': sorted(used), 'later': later}
@@ -672,7 +695,7 @@ EVIDENCE = {
              'install dirs, library mode, compdb switch, project arguments) '
              'followed by a history of later invocations (regenerate, '
              'backend-launched lazy regeneration, env, env -u, run, run -I, '
-             'load+save, format downgrade to v13..v16 + regenerate), each '
+             'load+save, format downgrade to v10..v16 + regenerate), each '
              'under a freshly perturbed ambient environment, cwd, HOME and '
              'argv[0] spelling; distinct = distinct (toolchain operation '
              'kinds used, configure arguments, sequence of later invocation '
